@@ -23,7 +23,9 @@ Known == {"nl.bsn", "nl.onderwijsnummer", "pl.nip", "pl.regon", "pt.nif", "dk.cv
           "es.nie", "es.cif", "gb.vat", "fr.tva", "ie.pps", "cr.cpf", "cr.cpj", "do.rnc", "fi.associationid", "fr.siret", "in_.pan",
           "ke.pin", "li.peid", "md.idno", "nl.btw", "no.mva",
           "ar.dni", "ar.cbu", "at.businessid", "at.vnr", "br.cnpj", "ca.bn", "ca.bc_phn", "ch.esr", "ch.vat", "cn.uscc", "cr.cr",
-          "de.idnr", "de.wkn", "dz.nif", "eu.banknote", "eu.eic", "fo.vn"}
+          "de.idnr", "de.wkn", "dz.nif", "eu.banknote", "eu.eic", "fo.vn",
+          "ec.ruc", "es.ccc", "es.postal_code", "eu.ecnumber", "eu.oss", "gh.tin", "gn.nifp", "il.hp", "in_.aadhaar", "in_.vid",
+          "in_.epic", "it.aic", "mc.tva", "nl.postcode", "nl.brin", "nl.identiteitskaartnummer", "no.kontonr", "pk.cnic"}
 (* formats with further rules (dates, ranges) that are not transcribed: the checksum is only a NECESSARY condition *)
 Necessary == {"no.fodselsnummer", "fi.hetu", "ch.ssn", "lv.pvn", "pl.pesel", "ee.ik"}
 
@@ -50,6 +52,25 @@ ChUidOk(c) == /\ Len(c) = 12 /\ SubSeq(c, 1, 3) = <<67, 72, 69>> /\ IsDigits(Sub
 Count(ch, c) == Cardinality({i \in 1..Len(c) : c[i] = ch})
 UsccAlphabet == <<48, 49, 50, 51, 52, 53, 54, 55, 56, 57, 65, 66, 67, 68, 69, 70, 71, 72, 74, 75, 76, 77, 78, 80, 81, 82, 84, 85, 87, 88, 89>>
 EicVal(ch) == IF ch = 45 THEN 36 ELSE IF ch <= 57 THEN ch - 48 ELSE ch - 55
+FrTvaOk(c) == /\ Len(c) = 11 /\ FrAlpha(c[1]) /\ FrAlpha(c[2]) /\ IsDigits(SubSeq(c, 3, 11))
+                       /\ (SubSeq(c, 3, 5) # <<48, 48, 48>> => SirenOk(SubSeq(c, 3, 11)))
+                       /\ IF IsDigits(SubSeq(c, 1, 2)) THEN NumOf(c, 1, 2) = ModOf(SubSeq(c, 3, 11) \o <<49, 50>>, 97)
+                          ELSE LET chk == IF c[1] <= 57 THEN FrIdx(c[1]) * 24 + FrIdx(c[2]) - 10 ELSE FrIdx(c[1]) * 34 + FrIdx(c[2]) - 100
+                               IN (ModOf(SubSeq(c, 3, 11), 11) + 1 + (chk \div 11)) % 11 = chk % 11
+EcCiOk(c) == /\ Len(c) = 10 /\ IsDigits(c) /\ NumOf(c, 1, 2) \in (1..24) \cup {30, 50} /\ D(c[3]) <= 6
+                      /\ Sum(LAMBDA i : IF i % 2 = 1 THEN DigitSum(2 * D(c[i])) ELSE D(c[i]), 10) % 10 = 0
+(* Verhoeff: dihedral group D5 and the permutation (1 5 7 6 2 8 3 0 9 4) applied position times, from the right *)
+DihMul(j, k) == IF j < 5 THEN (IF k < 5 THEN (j + k) % 5 ELSE 5 + ((j + (k - 5)) % 5))
+                ELSE (IF k < 5 THEN 5 + (((j - 5) + 5 - k) % 5) ELSE ((j - 5) + 5 - (k - 5)) % 5)
+VP1 == <<1, 5, 7, 6, 2, 8, 3, 0, 9, 4>>
+VPermPow(k, d) == FoldLeft(LAMBDA x, j : VP1[x + 1], d, [j \in 1..k |-> j])
+VerhoeffOk(c) == LET n == Len(c) IN FoldLeft(LAMBDA q, i : DihMul(q, VPermPow((i - 1) % 8, D(c[n + 1 - i]))), 0, [i \in 1..n |-> i]) = 0
+Palindrome(c) == \A i \in 1..Len(c) : c[i] = c[Len(c) + 1 - i]
+Dec9(n) == [i \in 1..9 |-> 48 + ((n \div (10 ^ (9 - i))) % 10)]
+AicBase32 == <<48, 49, 50, 51, 52, 53, 54, 55, 56, 57, 66, 67, 68, 70, 71, 72, 74, 75, 76, 77, 78, 80, 81, 82, 83, 84, 85, 86, 87, 88, 89, 90>>
+AicBase10Ok(c) == /\ Len(c) = 9 /\ IsDigits(c) /\ c[1] = 48
+                  /\ Sum(LAMBDA i : DigitSum((IF i % 2 = 1 THEN 1 ELSE 2) * D(c[i])), 8) % 10 = D(c[9])
+EsCccDigit(ten) == LET r == Sum(LAMBDA i : D(ten[i]) * (2 ^ (i - 1)), 10) % 11 IN IF r < 2 THEN r ELSE 11 - r
 EstonianCheck(c, n) ==        \* check digit over the first n digits: weights 1,2,..,9,1,.. and, when that gives 10, 3,4,..,9,1,2,..
   LET s1 == Sum(LAMBDA i : (((i - 1) % 9) + 1) * D(c[i]), n) % 11
       s2 == Sum(LAMBDA i : (((i + 1) % 9) + 1) * D(c[i]), n) % 11
@@ -131,8 +152,7 @@ AcceptN(m, c) ==
                        /\ LET T == <<1, 0, 5, 7, 9, 13, 15, 17, 19, 21>>
                               s == Sum(LAMBDA i : IF i % 2 = 1 THEN T[D(c[i]) + 1] ELSE D(c[i]), 8)
                           IN c[9] = 65 + (s % 26)
-    [] m = "ec.ci" -> /\ Len(c) = 10 /\ IsDigits(c) /\ NumOf(c, 1, 2) \in (1..24) \cup {30, 50} /\ D(c[3]) <= 6
-                      /\ Sum(LAMBDA i : IF i % 2 = 1 THEN DigitSum(2 * D(c[i])) ELSE D(c[i]), 10) % 10 = 0
+    [] m = "ec.ci" -> EcCiOk(c)
     [] m = "ee.registrikood" -> Len(c) = 8 /\ IsDigits(c) /\ D(c[1]) \in {1, 7, 8, 9} /\ EstonianCheck(c, 7) = D(c[8])
     [] m = "gb.nhs" -> Len(c) = 10 /\ IsDigits(c) /\ W(c, <<10, 9, 8, 7, 6, 5, 4, 3, 2, 1>>) % 11 = 0
     [] m = "gb.utr" -> /\ Len(c) = 10 /\ IsDigits(c)
@@ -196,11 +216,7 @@ AcceptN(m, c) ==
                                     /\ LET cs == W(c, <<8, 7, 6, 5, 4, 3, 2, 10, 1>>) % 97
                                        IN IF NumOf(c, 1, 3) >= 100 THEN cs \in {0, 42, 55} ELSE cs = 0
            [] OTHER -> FALSE
-    [] m = "fr.tva" -> /\ Len(c) = 11 /\ FrAlpha(c[1]) /\ FrAlpha(c[2]) /\ IsDigits(SubSeq(c, 3, 11))
-                       /\ (SubSeq(c, 3, 5) # <<48, 48, 48>> => SirenOk(SubSeq(c, 3, 11)))
-                       /\ IF IsDigits(SubSeq(c, 1, 2)) THEN NumOf(c, 1, 2) = ModOf(SubSeq(c, 3, 11) \o <<49, 50>>, 97)
-                          ELSE LET chk == IF c[1] <= 57 THEN FrIdx(c[1]) * 24 + FrIdx(c[2]) - 10 ELSE FrIdx(c[1]) * 34 + FrIdx(c[2]) - 100
-                               IN (ModOf(SubSeq(c, 3, 11), 11) + 1 + (chk \div 11)) % 11 = chk % 11
+    [] m = "fr.tva" -> FrTvaOk(c)
     [] m = "ie.pps" -> /\ Len(c) \in {8, 9} /\ IsDigits(SubSeq(c, 1, 7)) /\ c[8] \in 65..87
                        /\ (Len(c) = 9 => c[9] \in {65, 66, 72, 87, 84, 88})
                        /\ IF Len(c) = 9 /\ c[9] \in {65, 66, 72} THEN c[8] = IeCheck(SubSeq(c, 1, 7), IeLetterVal(c[9]))
@@ -273,6 +289,44 @@ AcceptN(m, c) ==
                        /\ LET t == Sum(LAMBDA i : (17 - i) * EicVal(c[i]), 15)  k == 36 - ((t + 36) % 37)
                           IN EicVal(c[16]) = k
     [] m = "fo.vn" -> Len(c) = 6 /\ IsDigits(c)
+    [] m = "ec.ruc" -> /\ Len(c) = 13 /\ IsDigits(c) /\ NumOf(c, 1, 2) \in (1..24) \cup {30, 50}
+                       /\ LET natural == NumOf(c, 11, 13) # 0 /\ EcCiOk(SubSeq(c, 1, 10))
+                              public == NumOf(c, 10, 13) # 0 /\ W(c, <<3, 2, 7, 6, 5, 4, 3, 2, 1>>) % 11 = 0
+                              juridical == NumOf(c, 11, 13) # 0 /\ W(c, <<4, 3, 2, 7, 6, 5, 4, 3, 2, 1>>) % 11 = 0
+                          IN CASE D(c[3]) < 6 -> natural [] D(c[3]) = 6 -> public \/ natural [] D(c[3]) = 9 -> public \/ juridical [] OTHER -> FALSE
+    [] m = "es.ccc" -> /\ Len(c) = 20 /\ IsDigits(c)
+                       /\ D(c[9]) = EsCccDigit(<<48, 48>> \o SubSeq(c, 1, 8)) /\ D(c[10]) = EsCccDigit(SubSeq(c, 11, 20))
+    [] m = "es.postal_code" -> Len(c) = 5 /\ IsDigits(c) /\ NumOf(c, 1, 2) \in 1..52
+    [] m = "eu.ecnumber" -> /\ Len(c) = 9 /\ c[4] = 45 /\ c[8] = 45 /\ IsDigits(SubSeq(c, 1, 3) \o SubSeq(c, 5, 7) \o <<c[9]>>)
+                            /\ LET d == SubSeq(c, 1, 3) \o SubSeq(c, 5, 7) IN W(d, <<1, 2, 3, 4, 5, 6>>) % 11 = D(c[9])
+    [] m = "eu.oss" -> /\ \/ Len(c) = 11 /\ SubSeq(c, 1, 2) = <<69, 85>>
+                          \/ Len(c) = 12 /\ SubSeq(c, 1, 2) = <<73, 77>>
+                       /\ IsDigits(SubSeq(c, 3, Len(c)))
+                       /\ NumOf(c, 3, 5) \in {40, 56, 100, 191, 196, 203, 208, 233, 246, 250, 276, 300, 348, 372, 380, 428, 440, 442, 470, 528,
+                                              616, 620, 642, 703, 705, 724, 752, 900}
+    [] m = "gh.tin" -> /\ Len(c) = 11 /\ c[1] \in {80, 67, 71, 81, 86} /\ c[2] = 48 /\ c[3] = 48 /\ IsDigits(SubSeq(c, 4, 10))
+                       /\ LET r == Sum(LAMBDA i : i * D(c[i + 1]), 9) % 11 IN c[11] = (IF r = 10 THEN 88 ELSE 48 + r)
+    [] m = "gn.nifp" -> Len(c) = 9 /\ IsDigits(c) /\ LuhnSum(c) % 10 = 0
+    [] m = "il.hp" -> Len(c) = 9 /\ IsDigits(c) /\ c[1] = 53 /\ LuhnSum(c) % 10 = 0
+    [] m = "in_.aadhaar" -> Len(c) = 12 /\ IsDigits(c) /\ D(c[1]) >= 2 /\ ~Palindrome(c) /\ VerhoeffOk(c)
+    [] m = "in_.vid" -> Len(c) = 16 /\ IsDigits(c) /\ D(c[1]) >= 2 /\ ~Palindrome(c) /\ VerhoeffOk(c)
+    [] m = "in_.epic" -> /\ Len(c) = 10 /\ (\A i \in 1..3 : c[i] \in 65..90) /\ IsDigits(SubSeq(c, 4, 10)) /\ LuhnSum(SubSeq(c, 4, 10)) % 10 = 0
+    [] m = "it.aic" -> IF Len(c) = 6
+                       THEN /\ \A i \in 1..6 : In(c[i], AicBase32)
+                            /\ LET n == FoldLeft(LAMBDA acc, ch : 32 * acc + (IndexIn(ch, AicBase32) - 1), 0, c)
+                               IN n < 1000000000 /\ AicBase10Ok(Dec9(n))
+                       ELSE AicBase10Ok(c)
+    [] m = "mc.tva" -> Len(c) = 13 /\ SubSeq(c, 1, 2) = <<70, 82>> /\ FrTvaOk(SubSeq(c, 3, 13)) /\ SubSeq(c, 5, 7) = <<48, 48, 48>>
+    [] m = "nl.postcode" -> /\ Len(c) = 6 /\ D(c[1]) >= 1 /\ IsDigits(SubSeq(c, 1, 4)) /\ c[5] \in 65..90 /\ c[6] \in 65..90
+                            /\ SubSeq(c, 5, 6) \notin {<<83, 65>>, <<83, 68>>, <<83, 83>>}
+    [] m = "nl.brin" -> /\ Len(c) \in {4, 6} /\ IsDigits(SubSeq(c, 1, 2)) /\ c[3] \in 65..90 /\ c[4] \in 65..90
+                        /\ (Len(c) = 6 => IsDigits(SubSeq(c, 5, 6)))
+    [] m = "nl.identiteitskaartnummer" -> /\ Len(c) = 9 /\ c[1] \in 65..90 /\ c[2] \in 65..90 /\ c[9] \in 48..57
+                                          /\ (\A i \in 3..8 : (c[i] \in 48..57) \/ (c[i] \in 65..90)) /\ ~In(79, c)
+    [] m = "no.kontonr" -> /\ IsDigits(c)
+                           /\ \/ Len(c) = 7 /\ LuhnSum(c) % 10 = 0
+                              \/ Len(c) = 11 /\ (11 - (W(c, <<5, 4, 3, 2, 7, 6, 5, 4, 3, 2>>) % 11)) % 11 = D(c[11])
+    [] m = "pk.cnic" -> Len(c) = 13 /\ IsDigits(c) /\ c[13] # 48 /\ D(c[1]) \in 1..7
 
 (* checksum parts of formats with further rules *)
 NecessaryN(m, c) ==
